@@ -231,7 +231,8 @@ static void run_pass(struct op *ops, int nops, unsigned char fill, struct res *r
       cur_al = s->al; ncur = 0;
       char *txt = strdup(o->text);
       int dep = strchr(o->flags, 'd') != NULL;   /* 'd': through the deprecated alias of the entry point (same contract) */
-      if (o->kind == 'N') { if (dep) LIB(x->ret = assemble_string_counting_chunks(s->al, txt, o->a, &x->dest)); else LIB(x->ret = asm_assemble_string_counting_chunks(s->al, txt, o->a, &x->dest)); }
+      int *dp = strchr(o->flags, 'z') ? NULL : &x->dest;   /* 'z': the caller passes no place for the count */
+      if (o->kind == 'N') { if (dep) LIB(x->ret = assemble_string_counting_chunks(s->al, txt, o->a, dp)); else LIB(x->ret = asm_assemble_string_counting_chunks(s->al, txt, o->a, dp)); }
       else if (o->kind == 'A') { if (dep) LIB(x->ret = assemble_str(s->al, txt)); else LIB(x->ret = asm_assemble_str(s->al, txt)); }
       else if (o->kind == 'U') LIB(x->ret = asm_assemble_file_counting_chunks(s->al, txt, o->a, &x->dest));
       else { if (dep) LIB(x->ret = assemble_file(s->al, txt)); else LIB(x->ret = asm_assemble_file(s->al, txt)); }
@@ -356,10 +357,10 @@ static void print_events(const char *sid, struct op *ops, int nops, struct res *
                 (x->nout <= 0 || !memcmp(x->out, y->out, x->nout)) && x->steps_total == y->steps_total;
       int outside = x->outside ? x->outside : y->outside;
       printf("{\"e\":\"%s\",\"i\":%d,\"c\":%d,\"tag\":\"%s\",\"ret\":%d,\"off0\":%d,\"off1\":%d,\"dest\":%d,\"lo\":%d,\"hi\":%d,"
-             "\"outside\":%d,\"det\":%s,\"moved\":%s,\"hash\":%u,\"nsteps\":%d,\"lastcap\":%d,\"file\":%s,\"inj\":%s,\"calls\":\"%s\",\"out\":",
+             "\"outside\":%d,\"det\":%s,\"moved\":%s,\"hash\":%u,\"nsteps\":%d,\"lastcap\":%d,\"file\":%s,\"inj\":%s,\"calls\":\"%s\",\"nulld\":%s,\"out\":",
              (o->kind == 'N' || o->kind == 'U') ? "Count" : "Asm", o->i, (o->kind == 'N' || o->kind == 'U') ? o->a : 0, o->tag, x->ret, x->off0, x->off1, x->dest, lo, hi,
              outside, det ? "true" : "false", x->moved ? "true" : "false", x->hash, x->steps_total, x->lastcap,
-             (o->kind == 'T' || o->kind == 'U') ? "true" : "false", x->inj ? "true" : "false", x->calls);
+             (o->kind == 'T' || o->kind == 'U') ? "true" : "false", x->inj ? "true" : "false", x->calls, strchr(o->flags, 'z') ? "true" : "false");
       pr_bytes(x->out, x->nout > 0 ? x->nout : 0);
       printf(",\"outok\":%s,\"steps\":[", x->nout >= 0 ? "true" : "false");
       for (int q = 0; q < x->nsteps; q++)
